@@ -82,6 +82,89 @@ fn plan_for(id: SeqId, cf: Cf, kind: u8, at_ack: bool, rng: &mut Rng) -> ExPlan 
     p
 }
 
+/// The reply parser called directly (it is a public trait method: a transport other than
+/// `PacketTransport`, or a faulty one, may hand it a buffer that disagrees with its own length
+/// field): `replies[0]` is the buffer. It must never panic; fewer than two bytes or a control field
+/// outside the reply set is an error; otherwise the result is exactly what the variant's packet
+/// type decodes from the very same buffer on its own (an error if that fails).
+fn run_seam(plan: &ExPlan, want_trace: bool) -> RunOut {
+    let mut out = RunOut::new();
+    let info = seqs::info(plan.seq);
+    let buf = &plan.replies[0];
+    let sig = format!("{}/parser_seam", info.name);
+    let mut h = crate::rng::Hasher64::default();
+    h.str(info.name);
+    h.bytes(buf);
+    out.trace_hash = h.finish();
+    out.shape = out.trace_hash;
+    out.nontrivial = true;
+    if want_trace {
+        out.trace = vec![format!("{}::zvt_parse({})", info.name, crate::conn::hex(buf))];
+    }
+    out.stats.hit("probe.parser_called_directly");
+    let got = match seqs::library_parse_debug(plan.seq, buf) {
+        Ok(g) => g,
+        Err((loc, msg)) => {
+            out.fail("panic", format!("{}@{}", info.name, crate::framework::panic_sig(&loc, &msg)), format!("reply parser panicked on the {}-byte buffer {} at {loc}: {msg}", buf.len(), crate::conn::hex(buf)));
+            return out;
+        }
+    };
+    let in_set = buf.len() >= 2 && info.in_alphabet((buf[0], buf[1]));
+    if !in_set {
+        if let Some(g) = got {
+            out.fail("extra_item", sig, format!("buffer {} (shorter than two bytes or outside the reply set) was parsed as {g}", crate::conn::hex(buf)));
+        }
+        return out;
+    }
+    let own = seqs::own_decodes(buf);
+    match got {
+        // refusing a damaged buffer is always acceptable here (valid packets are judged through the transport)
+        None => {}
+        Some(g) => {
+            let ok = seqs::split_variant(&g).map(|(_, inner)| own.iter().any(|o| o == inner)).unwrap_or(false);
+            if !ok {
+                out.fail("item_content", sig, format!("reply parser returned {g} for buffer {}, its packet type decodes the same buffer as {:?}", crate::conn::hex(buf), own));
+            }
+        }
+    }
+    out
+}
+
+/// Buffers for the parser seam: a valid frame with bytes appended, cut at every length, with its
+/// length byte edited; the empty buffer and single bytes.
+fn seam_buffers(id: SeqId) -> Vec<Vec<u8>> {
+    let mut v: Vec<Vec<u8>> = vec![vec![], vec![0x06], vec![0x04], vec![0x80], vec![0x00], vec![0xff]];
+    for cf in seqs::info(id).alphabet() {
+        for marker in [2u8, 3] {
+            let f = seqs::reply_frame(id, &Reply { cf, marker });
+            if f.len() > 64 {
+                continue;
+            }
+            for tail in [&[0x27u8, 0x05][..], &[0x06, 0x0f, 0x00], &[0x00], &[0x06, 0x02, 0x4c, 0x00]] {
+                let mut b = f.clone();
+                b.extend_from_slice(tail);
+                v.push(b);
+            }
+            for cut in 0..f.len() {
+                v.push(f[..cut].to_vec());
+            }
+            if f.len() > 3 {
+                let mut b = f.clone();
+                b[2] = b[2].wrapping_add(1);
+                v.push(b);
+                let mut b = f.clone();
+                b[2] = b[2].wrapping_sub(1);
+                v.push(b);
+            }
+            v.push(vec![cf.0, cf.1]);
+            v.push(vec![cf.0, cf.1, 0x00, 0x27, 0x05]);
+        }
+    }
+    v.sort();
+    v.dedup();
+    v
+}
+
 fn quick_cfs(id: SeqId) -> Vec<Cf> {
     let info = seqs::info(id);
     let mut v = crate::c06::foreign_cfs(id);
@@ -122,6 +205,44 @@ impl Check for C15 {
                 // fixed marker per index so that the family is an enumeration
                 let f = frame_for_marker(id, cf, 7 + 8 * ((i % 30) as u8));
                 p.replies[0] = f;
+                p
+            }));
+        }
+        // the parser seam: buffers that disagree with their own length field, handed to zvt_parse directly
+        {
+            let mut list: Vec<(SeqId, Vec<u8>)> = vec![];
+            for id in ALL_SEQS {
+                for b in seam_buffers(id) {
+                    list.push((id, b));
+                }
+            }
+            let n = list.len() as u64;
+            fams.push(Family::new("parser_called_directly_with_inconsistent_buffers", n, true, move |i, _| {
+                let (id, b) = &list[i as usize];
+                let mut p = ExPlan::clean(*id, InParams::fixed(), vec![b.clone()]);
+                p.fault = "parser_seam".into();
+                p
+            }));
+        }
+        // the connection ends inside a reply: at every byte of a valid packet of every alphabet
+        {
+            let mut list: Vec<(SeqId, Cf, u32)> = vec![];
+            for id in ALL_SEQS {
+                for cf in seqs::info(id).alphabet() {
+                    let f = seqs::reply_frame(id, &Reply { cf, marker: 3 });
+                    for at in 0..f.len().min(40) as u32 {
+                        list.push((id, cf, at));
+                    }
+                }
+            }
+            let n = list.len() as u64;
+            fams.push(Family::new("connection_ends_inside_a_reply_at_every_byte", n, true, move |i, rng| {
+                let (id, cf, at) = list[i as usize];
+                let mut p = plan_for(id, cf, 1, false, rng);
+                p.replies[0] = seqs::reply_frame(id, &Reply { cf, marker: 3 });
+                // 3 = the terminal's acknowledgement in front of the reply
+                p.cut = Some((3 + at, if i % 3 == 0 { crate::conn::CloseKind::Reset } else { crate::conn::CloseKind::Eof }));
+                p.fault = "eof".into();
                 p
             }));
         }
@@ -187,6 +308,9 @@ impl Check for C15 {
     }
 
     fn run(&self, plan: &ExPlan, want_trace: bool) -> RunOut {
+        if plan.fault == "parser_seam" {
+            return run_seam(plan, want_trace);
+        }
         run_and_judge(plan, want_trace)
     }
 
@@ -195,7 +319,7 @@ impl Check for C15 {
     }
 
     fn rule_text(&self) -> String {
-        "one run = one real sequence whose terminal answers with one well-framed reply of control field (c,i) and body in {empty, valid for the target variant, valid for another variant, PRNG}, delivered whole, byte by byte or in PRNG chunks with spurious Pending; thorough: all 65,536 (c,i) x 17 reply parsers x 4 bodies plus all 65,536 at the acknowledgement point (io::Ack); quick: alphabet, its +-1 neighbours, class-only / instr-only matches, other replies' control fields and 2,000 PRNG pairs per parser; oracle: in the command's reply set and decodable by the packet type on its own -> Ok with exactly that content (Debug equality), else exactly one Err and no acknowledgement; distinct = hash of (sequence, control field, model outcome)".into()
+        "one run = one real sequence whose terminal answers with one well-framed reply of control field (c,i) and body in {empty, valid for the target variant, valid for another variant, PRNG}, delivered whole, byte by byte or in PRNG chunks with spurious Pending; thorough: all 65,536 (c,i) x 17 reply parsers x 4 bodies plus all 65,536 at the acknowledgement point (io::Ack); quick: alphabet, its +-1 neighbours, class-only / instr-only matches, other replies' control fields and 2,000 PRNG pairs per parser; also: the reply parser called directly with buffers that disagree with their own length field (trailing bytes, every truncation, edited length, 0 and 1 byte), and the connection ending at every byte inside a valid reply; oracle: in the command's reply set and decodable by the packet type on its own -> Ok with exactly that content (Debug equality), else exactly one Err and no acknowledgement; distinct = hash of (sequence, control field, model outcome)".into()
     }
     fn assumptions(&self) -> Vec<String> {
         vec![
